@@ -8,7 +8,8 @@ package bloom
 // uninterpreted relation (function of the filter object, whose hashFunc and len(filter) never change after
 // construction, and of the data CONTENT). getBitsIndexes (goroutines + channel, out of reach of the engine) is the
 // trusted link: its result enumerates exactly that set, in any order, every index below 8*len(filter).
-// Lockset: field `filter` stands for the filter content (element accesses go through a read of the field).
+// Lockset: field `filter` stands for the filter content (element accesses go through a read of the field); Add, MayContain
+// and Clear hold the mutex for every access (F31 repaired).
 
 /*@
 struct Bloom
@@ -73,6 +74,7 @@ func (b *Bloom) MayContain(data []byte) (r bool)
   requires inv(b)
   ensures no-false-negative: (forall i uint64 :: inIdx(b, str(data), i) ==> bitSetP(b.filter, i)) ==> r
   ensures true-means-all-set: r ==> (forall i uint64 :: inIdx(b, str(data), i) ==> bitSet(b.filter, i))
+  ensures lock-released: !held(b.mutex) && !heldR(b.mutex)
   assigns nothing
 
 loop 1
@@ -84,6 +86,7 @@ func (b *Bloom) Clear()
   requires inv(b)
   ensures inv(b)
   ensures all-zero: forall j :: 0 <= j && j < len(b.filter) ==> b.filter[idf(j)] == 0
+  ensures lock-released: !held(b.mutex) && !heldR(b.mutex)
   assigns elems(b.filter)
 
 loop 1
